@@ -25,7 +25,7 @@ TRUSTED = {
     "A1": "A1 assumed contracts of str methods on abstract strings (pyvc.strings: split/startswith/endswith/split(c,1)); ground instances evaluated by host CPython",
     "A2": "A2 decimal: a result representable in 28 digits is exact under every context with prec>=28; otherwise relative error <= 1e-27 for + - * / ** (any rounding mode); quantize with explicit rounding is exact",
     "A3": "A3 IEEE-754 binary64 float arithmetic of the host CPython equals that of the deployment interpreter (leaf values are computed by host float operations)",
-    "A4": "A4 re.findall contract and the translation of the parser's pattern to a z3 regular expression",
+    "A4": "A4 re.findall contract (leftmost, non-overlapping, greedy = longest for a pattern of greedy repetitions) and the translation of the parser's pattern and flags to a z3 regular expression (character sets of classes/categories under flags are taken from CPython's engine over all code points)",
     "A5": "A5 argparse/json/print/input contracts for the stated command-line domain",
     "A6": "A6 JSON-Schema keyword semantics over decimal literals (multipleOf exact)",
     "A7": "A7 the specification tables under /verif/spec are the official FIRST data",
